@@ -331,6 +331,26 @@ fn op_from_u64(x: u64) -> Out {
     None
 }
 
+/// The word-level helpers behind `hi64` (`u32_to_hi64_{1,2,3}`, `u64_to_hi64_{1,2}`): top 64 bits of the words read as one
+/// big-endian integer, and whether non-zero bits were dropped. The most significant word is non-zero (normalised input).
+fn op_hi64_words(kind: u64, a: u64, b: u64, c: u64) -> Out {
+    let refr = |x: u128| -> (u64, bool) {
+        let n = x << x.leading_zeros();
+        ((n >> 64) as u64, n as u64 != 0)
+    };
+    let (got, want, name) = match kind {
+        1 => (bigint::u32_to_hi64_1(a as u32), { let x = a as u32 as u64; (x << x.leading_zeros(), false) }, "u32_to_hi64_1"),
+        2 => (bigint::u32_to_hi64_2(a as u32, b as u32), { let x = ((a as u32 as u64) << 32) | b as u32 as u64; (x << x.leading_zeros(), false) }, "u32_to_hi64_2"),
+        3 => (bigint::u32_to_hi64_3(a as u32, b as u32, c as u32), refr(((a as u32 as u128) << 64) | ((b as u32 as u128) << 32) | c as u32 as u128), "u32_to_hi64_3"),
+        4 => (bigint::u64_to_hi64_1(a), (a << a.leading_zeros(), false), "u64_to_hi64_1"),
+        _ => (bigint::u64_to_hi64_2(a, b), refr(((a as u128) << 64) | b as u128), "u64_to_hi64_2"),
+    };
+    if got != want {
+        return Some(format!("{}({:#x}, {:#x}, {:#x}) = {:x?}, want {:x?}", name, a, b, c, got, want));
+    }
+    None
+}
+
 /// Dispatch by name (enumeration records the argv, replay re-executes it).
 fn c12_exec(argv: &[String]) -> Out {
     let n = |i: usize| -> u64 { argv[i].parse().unwrap() };
@@ -349,6 +369,7 @@ fn c12_exec(argv: &[String]) -> Out {
         "unary" => op_unary(&dec(&argv[1])),
         "compare" => op_compare(&dec(&argv[1]), &dec(&argv[2])),
         "from_u64" => op_from_u64(n(1)),
+        "hi64_words" => op_hi64_words(n(1), n(2), n(3), n(4)),
         _ => Some(format!("unknown op {}", argv[0])),
     }
 }
@@ -388,6 +409,7 @@ fn op_label(s: &str) -> &'static str {
         "shl_limbs" => "shl_limbs",
         "unary" => "unary(normalize,is_normalized,bit_length,hi64)",
         "compare" => "compare/Ord/Eq",
+        "hi64_words" => "u32_to_hi64_*/u64_to_hi64_*",
         _ => "from_u64",
     }
 }
@@ -537,6 +559,26 @@ pub fn c12(a: &Args) -> (Stats, String) {
                 }
                 for &v in &LIMB_VALUES {
                     run_op(st, vec![s("from_u64"), v.to_string()]);
+                }
+                // the word-level helpers of hi64, for 32-bit and 64-bit words (the 32-bit ones are exposed on every target)
+                let w32: [u64; 9] = [0, 1, 2, 0x7FFF_FFFF, 0x8000_0000, 0xFFFF_FFFF, 0xAAAA_AAAA, 1220703125, 0x0001_0000];
+                for &a in &w32[1..] {
+                    run_op(st, vec![s("hi64_words"), s("1"), a.to_string(), s("0"), s("0")]);
+                    for &b in &w32 {
+                        run_op(st, vec![s("hi64_words"), s("2"), a.to_string(), b.to_string(), s("0")]);
+                        for &c3 in &w32 {
+                            run_op(st, vec![s("hi64_words"), s("3"), a.to_string(), b.to_string(), c3.to_string()]);
+                        }
+                    }
+                }
+                for &a in &LIMB_VALUES {
+                    if a == 0 {
+                        continue;
+                    }
+                    run_op(st, vec![s("hi64_words"), s("4"), a.to_string(), s("0"), s("0")]);
+                    for &b in &LIMB_VALUES {
+                        run_op(st, vec![s("hi64_words"), s("5"), a.to_string(), b.to_string(), s("0")]);
+                    }
                 }
             } else if j == nchunks + nsub + 2 {
                 // QUOT: operands whose product with a power of five the algorithms multiply by is special
@@ -859,7 +901,8 @@ fn ladder_ops(k: usize, j: usize, r: usize, f: usize) -> Vec<Op> {
     for _ in 0..j {
         ops.push(Op::Pop);
     }
-    ops.push(Op::Resize(r, [0u64, u64::MAX, 0x0123_4567_89AB_CDEF][f % 3]));
+    // fill values: zero, all ones, all-different bytes, and byte-splat values (a `memset` shortcut keyed to a narrower limb would show)
+    ops.push(Op::Resize(r, [0u64, u64::MAX, 0x0123_4567_89AB_CDEF, 0xFFFF_FFFF, 0x0101_0101, 0x0101_0101_0101_0101, 0xFF][f % 7]));
     ops.push(Op::CloneIt);
     ops.push(Op::Extend(2));
     ops.push(Op::AddSmall(u64::MAX));
@@ -935,7 +978,7 @@ pub fn c13(a: &Args) -> (Stats, String) {
                 for jj in 0..=k.min(c) {
                     for r in 0..=c + 1 {
                         for f in 0..2usize {
-                            let f = (f + r + jj) % 3;
+                            let f = (f * 3 + r + jj) % 7;
                             let ops = ladder_ops(k, jj, r, f);
                             st.cases += 1;
                             st.nontrivial += 1;
